@@ -130,6 +130,22 @@ pub fn all(n: i64, len: usize) -> Vec<(String, Module)> {
             Card::set_global_var("mx", Card::call_function("std.max_by_key", vec![Card::function_value("key"), Card::read_var("t")])),
         ])),
     ])));
+    // 9. overwriting an entry through a different but equal key object (two string literals,
+    //    property shorthand, keys built at run time), then allocating, then reading again
+    v.push(("overwrite_equal_keys".into(), module(vec![("main", f(vec![
+        Card::set_global_var("t", table()),
+        Card::set_var("t.foo", Card::scalar_int(1)),
+        Card::set_var("t.foo", Card::scalar_int(2)),
+        Card::set_var("junk", s(len, 15)),
+        Card::repeat(Card::scalar_int(n.min(25)), Some("i".into()), Card::composite_card("b", vec![
+            Card::set_property(Card::read_var("i"), Card::read_var("t"), s(6, 16)),
+            Card::set_property(s(len, 17), Card::read_var("t"), s(6, 16)),
+            Card::set_var("junk2", s(len, 18)),
+        ])),
+        probe(),
+        Card::set_global_var("r1", Card::read_var("t.foo")),
+        Card::set_global_var("r2", Card::get_property(Card::read_var("t"), s(6, 16))),
+    ]))])));
     v
 }
 
